@@ -40,3 +40,23 @@ REG.fn(N, "_residual", prop="C09", ret="int",
        requires=["0 <= arc < len(source)", "len(flow) == len(source)", "len(cap) == len(source)", "0 <= flow[arc] <= cap[arc]"],
        # room to push flow along the cycle through this arc: backwards arcs can give back their flow, forward arcs their slack
        ensures=["result == (flow[arc] if source[arc] == node else cap[arc] - flow[arc])", "result >= 0"])
+
+# _find_join(u, v, depth, parent): the join of the pivot cycle = where the tree paths of the entering arc's end points
+# meet.  Tree facts as network_simplex maintains them (lines 96-100 and the rebuild at 218-230): the root is the only
+# node of depth 0 and has parent -1, every other node's parent is one level up.  anc(P, x, k) = the k-th ancestor of x.
+REG.recfn("anc", [("P", "list[int]"), ("x", "int"), ("k", "int")], "int", on="k", base="x", step="P[anc(P, x, k - 1)]", group="anc")
+_TREE = ["len(depth) == len(parent)",
+         "forall(x, implies(0 <= x < len(depth), depth[x] >= 0), trig=depth[x])",
+         "forall(x, implies(0 <= x < len(depth) and depth[x] > 0, 0 <= parent[x] < len(depth) and depth[parent[x]] == depth[x] - 1), trig=parent[x])",
+         "forall(x, y, implies(0 <= x < len(depth) and 0 <= y < len(depth) and depth[x] == 0 and depth[y] == 0, x == y), trig=[[depth[x], depth[y]]])"]
+REG.fn(N, "_find_join", prop="C09", ret="int", lemmas=["anc"],
+       types={"u": "int", "v": "int", "depth": "list[int]", "parent": "list[int]"},
+       requires=_TREE + ["0 <= u < len(depth)", "0 <= v < len(depth)"],
+       # the answer is a common ancestor (or the node itself) of both arguments: walking up from either one by the
+       # difference of depths arrives at it; and the walk terminates (the sum of the two depths decreases)
+       ensures=["0 <= result < len(depth)", "depth[result] <= depth[old(u)]", "depth[result] <= depth[old(v)]",
+                "result == anc(parent, old(u), depth[old(u)] - depth[result])",
+                "result == anc(parent, old(v), depth[old(v)] - depth[result])"],
+       loops={1: LoopSpec(decreases="depth[u] + depth[v]", invariants=[
+           "0 <= u < len(depth)", "0 <= v < len(depth)", "depth[u] <= depth[old(u)]", "depth[v] <= depth[old(v)]",
+           "u == anc(parent, old(u), depth[old(u)] - depth[u])", "v == anc(parent, old(v), depth[old(v)] - depth[v])"])})
